@@ -159,6 +159,13 @@ pub fn shrink(original: &Plan, recorded_schedule: Vec<u8>, violation: &Violation
                 progress = true;
             }
         }
+        if best.stmt_points && tried < budget {
+            let mut c = best.clone();
+            c.stmt_points = false;
+            if attempt!(c) {
+                progress = true;
+            }
+        }
         if best.read_yield != 0 && tried < budget {
             let mut c = best.clone();
             c.read_yield = 0;
